@@ -32,6 +32,9 @@ TRUSTED = [
     "(the encoder is defined in Lean and compared with Python's on every payload), dict iteration order = insertion order",
     "getProcessStateDescription (the state-name table belongs to C01) and the values pid/tries/expected handed to the "
     "event constructor: that they are the values at the moment of the change is C01's observer theorem, not re-proved here",
+    "a group is 'live' (for a listener pool: subscribed) from make_group() until before_remove(): proved equal to membership of the table over every "
+    "history and fault point, refused removals included (okLive / group_history_subscriptions); observed through the group objects' before_remove "
+    "calls and, for the listener pool, by announcing an event after every operation; "
     "one-notification-per-announced-thing is proved here for sendRemoteCommEvent, for group additions / removals (every history, "
     "every fault point; over the regenerated statement order of add_process_group / remove_process_group), for the output flushed "
     "while a child is reaped (over the regenerated statement order of Subprocess.finish and the dispatcher model of C07/C08) and for "
@@ -52,7 +55,11 @@ RULE = ("envelope cases = (identifier, pool name, serials, concrete event class,
         "every stream of up to 3 symbols over {BEGIN, END, token prefix, x}; change_state cases = all state pairs, random counters; L2 scenarios "
         "= random simkernel scripts (2-5 programs in 2-3 groups, tagged writes incl. whole and split capture sections, exits in the pass of the "
         "last write with 20-50% of ready descriptors not reported, autorestart, fork/pipe faults, start/stop RPCs, group add/remove/stop, "
-        "sendRemoteCommEvent, clock jumps forwards and backwards, shutdown signals); pool histories = 2-3 real listener pools (1-2 listeners, names "
+        "sendRemoteCommEvent, clock jumps forwards and backwards, shutdown signals); after every group operation (refused removals of a pool with "
+        "a running member included) a TICK_5 is announced and must be offered to listener pool b exactly when b is in the table; "
+        "pool histories = 2-3 real listener pools in the process_groups of a real Supervisor, pools removed (refused while a listener runs, or "
+        "after a stop) and added (new names, names of removed pools) by the real remove_process_group / add_process_group while the others "
+        "keep being notified (1-2 listeners, names "
         "shared across pools or unique, overlapping / disjoint / abstract subscriptions), announcements of every kind, listeners answering OK / FAIL / "
         "garbage (whole or split) or dying while busy, then a well-behaved final phase; non-trivial = non-ASCII payload, at least one tick / a backward "
         "step, at least one notification; distinct = distinct canonical case")
